@@ -29,6 +29,11 @@ def main():
         K, call = pickle.loads(sys.stdin.buffer.read())
         sys.stdout.buffer.write(pickle.dumps(answer(sf, K, call), protocol=4))
         return
+    if "--history" in sys.argv:
+        from . import histsim
+        ops, passive = pickle.loads(sys.stdin.buffer.read())
+        sys.stdout.buffer.write(pickle.dumps(histsim.execute(sf, ops, passive), protocol=4))
+        return
     from .procs import _recv, _send, fork_call
     inp, out = sys.stdin.buffer, sys.stdout.buffer
     _send(out, ("hello", sf.__file__))
